@@ -105,7 +105,8 @@ QUICK_MICRO = ["m03_star", "m05_opt", "m07_nullable_rule", "m11_deep", "e02_cond
                "k01_noskip", "o03_choice_rule", "o04_choice_in_loop", "o05_choice_loop_alt", "o06_choice_elide_rename",
                "o09_choice_commit_rule", "o11_choice_star", "o12_choice_cond_elide_rename",
                "m12_loop_in_recursive", "n10_rename_nameless_creation", "x14_prefix_postfix", "x01_left", "x17_two_pratt_rules", "o14_action_after_commit",
-               "p09_pred_loop_in_loop", "x18_atom_nullable_tail"]
+               "p09_pred_loop_in_loop", "x18_atom_nullable_tail",
+               "x19_prefix_then_right", "p10_pred_primary_leftrec", "o15_choice_rule_bottomup"]
 QUICK_SKEL = {"fe", "m03_star", "k01_noskip", "q01_parts", "o03_choice_rule", "ex_json"}
 # units that get the bounded native run (C16 relational clause) although Verus verifies all their functions
 REL_UNITS = {"m03_star", "m05_opt", "m11_deep", "ex_json", "ex_toml", "q01_parts", "x07_mixed", "p01_pred_alt", "n04_marker_loop", "e02_cond", "t02_return_cond",
@@ -214,7 +215,14 @@ def parse_errors(stderr, vfile_lines, fn_ranges):
         own = [ln for (f, ln) in b["lines"] if f is None or f.endswith(".rs") and "std_specs" not in f and "/vstd/" not in f]
         own = [ln for ln in own if 1 <= ln <= len(vfile_lines)]
         fn = None
-        for ln in own:
+        # an obligation that fails inside a macro expansion (expect!, try_expect!) is reported at the macro
+        # definition first; the function it belongs to is the one holding the macro invocation
+        inv = []
+        for i, tl in enumerate(b["text"][:-1]):
+            m2 = re.match(r"^\s*(\d+) [|/]", tl)
+            if m2 and "in this macro invocation" in b["text"][i + 1]:
+                inv.append(int(m2.group(1)))
+        for ln in [x for x in inv if 1 <= x <= len(vfile_lines)] + own:
             for (a, z, key) in fn_ranges:
                 if a <= ln <= z:
                     fn = key
@@ -298,7 +306,10 @@ def verify_unit(unit, gen_text, timeout=1500):
     except OSError:
         grammar_text = ""
     rel = unit["name"] in REL_UNITS or (unit.get("tier") == "thorough" and unit["kind"] == "grammar" and not unit["name"].startswith("kf_"))
-    key = sha(gen_text, grammar_text, tool_hash(), json.dumps(VERUS_FLAGS), "skel" if unit["skel"] else "noskel", "rel" if rel else "norel")
+    # the front end's own parser: its hand-written predicate (src/frontend/parser.rs) is verified as written
+    real = assemble.real_predicates(os.path.join(REPO, "src/frontend/parser.rs")) if unit["name"] in ("fe", "fe_regen") else {}
+    key = sha(gen_text, grammar_text, tool_hash(), json.dumps(VERUS_FLAGS), "skel" if unit["skel"] else "noskel", "rel" if rel else "norel",
+              json.dumps(real, sort_keys=True))
     cpath = os.path.join(RESULTS, key + ".json")
     if os.path.exists(cpath):
         try:
@@ -319,7 +330,7 @@ def verify_unit(unit, gen_text, timeout=1500):
     try:
         for i in range(nsh):
             rep = {"grammar_text": grammar_text}
-            t = assemble.build(gen_text, sc, annotate=annotate.annotate, report=rep, shard=(i, nsh, unit["skel"] and i == 0))
+            t = assemble.build(gen_text, sc, annotate=annotate.annotate, report=rep, shard=(i, nsh, unit["skel"] and i == 0), real_preds=real)
             texts.append((t, rep))
     except Lost as e:
         res["status"] = "lost_anchor"
@@ -334,7 +345,8 @@ def verify_unit(unit, gen_text, timeout=1500):
     rep0 = texts[0][1]
     res["report"] = {"extraction": rep0.get("extraction"), "annotator": rep0.get("annotator"),
                      "static_skip": rep0.get("static_skip"), "eoi": rep0.get("eoi"),
-                     "contracts_applied": len(rep0.get("contracts_applied", []))}
+                     "contracts_applied": len(rep0.get("contracts_applied", [])),
+                     "real_user_predicates": rep0.get("real_user_predicates", [])}
     t0 = time.time()
 
     def one(i):
